@@ -272,6 +272,8 @@ const ALPHABET: &[&str] = &[
     ".é", ".文", ".文 d", "#é", ".😀", ".c😀",
     // an escape and a non-letter identifier code point in one leading name, in both orders
     ".a\\:😀b", "#😀\\:b", "#\\31 st😀",
+    // the backslash itself, written as a hex escape in front of more name (same key as `.a\\b`)
+    ".a\\5c b", "#i\\5C j", ".a\\5c \\5c b",
     // no leading class / id: per-site route
     "div.c", "[c]", "*", "div", "c", "i", "[c=\".c\"]", "div#i", ":not(.c)", "*.c", "div > .c",
 ];
